@@ -32,7 +32,7 @@ TRUSTED = ["pandas groupby(sort=True).aggregate('sum') is modelled as the canoni
 ASSUMPTIONS = ["np.floor(start / binsize) equals exact floor division for coordinates < 2^53",
                "clr.chromsizes[c] equals the end of the last bin of c (create() derives the chroms table from the bins)"]
 RESIDUE = ["process scheduling, the HDF5 lock and fork/HDF5 interaction are not modelled (Pool.map assumed order preserving)",
-           "aggregations other than sum and float value columns are checked by the oracle only, not modelled"]
+           "the theorems hold for every aggregation function; the executable correspondence drives sum, max and min on integer columns through the model (coarsen_cooler_g), float value columns and other pandas aggregations are not exercised"]
 ALLOW_AXIOMS = ()
 
 HDR = "From Cooler Require Import Model.Coarsen."
@@ -586,14 +586,33 @@ def part_agg(ctx):
         cases.append({"fn": "coarsen_cooler(columns=...)", "widths": widths, "symmetric": symm, "pixels": pixels, "extra": extra,
                       "columns": rng.choice([["count", "w"], ["count", "w"], ["w"]]),
                       "k": rng.choice([2, 3]), "chunksize": rng.choice([1, 2, 7]), "agg": rng.choice(["max", "min", "sum"])})
+    # the model with the requested aggregation, column by column:  coarsen_cooler_g (agg_of op)
+    exprs, owners = [], []
+    for i, case in enumerate(cases):
+        blocks = blocks_from_widths(case["widths"])
+        t, sz = G.coq_bins(G.flat_of(blocks)), C.zl(G.sizes_of(blocks))
+        for c in case["columns"]:
+            vals_ = [p[2] for p in case["pixels"]] if c == "count" else list(case["extra"])
+            f = case.get("agg_count", "sum") if c == "count" else case["agg"]
+            px = G.coq_pixels([[p[0], p[1], v] for p, v in zip(case["pixels"], vals_)])
+            exprs.append(f"snd (coarsen_cooler_g {G.coq_agg(f)} {t} {sz} {px} {C.z(case['k'])} {C.z(case['chunksize'])} 1)")
+            owners.append((i, c))
+    model = C.coq_eval(HDR, exprs, tmpdir=ctx.tmp / "aggv")
+    mcols = {}
+    for (i, c), mo in zip(owners, model):
+        mcols[(i, c)] = [list(p) for p in mo]
     for i, case in enumerate(cases):
         ctx.case(case, nontrivial=len(case["pixels"]) > 0, kind="agg:" + case["agg"] + ":" + "+".join(case["columns"]))
-        for bad in agg_run(tmpdir, f"g{i}", case):
+        got = {}
+        for bad in agg_run(tmpdir, f"g{i}", case, got):
             ctx.fail(case, bad, None)
+        for c in case["columns"]:
+            if c in got:
+                ctx.compare(f"coarsen_cooler column {c} (model with the requested aggregation)", case, got[c], mcols[(i, c)])
     return len(cases)
 
 
-def agg_run(tmpdir, tag, case):
+def agg_run(tmpdir, tag, case, got_out=None):
     """returns the list of violations: every requested value column must be present in the output and
     hold the requested aggregate of the block (sum unless said otherwise)"""
     import cooler
@@ -638,6 +657,8 @@ def agg_run(tmpdir, tag, case):
             bad.append({"what": f"requested value column '{c}' is missing from the coarsened cooler", "columns": cols})
         else:
             got = [k_ + [v] for k_, v in zip(keys, vals[c])]
+            if got_out is not None:
+                got_out[c] = got
             if got != exp[c]:
                 bad.append({"what": f"value column {c}", "got": got[:30], "expected": exp[c][:30]})
     return bad
